@@ -113,12 +113,20 @@ fn judge(acc: &mut Acc, base: &Base, mutated: &str, lib: bool, form: &str, what:
 
 pub fn build(tier: Tier) -> Check<'static> {
     let mut c = Check::new("C12", tier, "6/C12");
-    c.rule = "accepted seed x trivia form x (all plain gaps at once | each single plain gap | `resetall before each top-level description, followed by a line end or by each trivia form); rejected mutants must stay rejected; non-trivial = mutated source differs from the original, distinct by hash".into();
+    c.rule = "accepted seed or default sentence of a reference-grammar rule x trivia form x (all plain gaps at once | each single plain gap | `resetall before each top-level description, followed by a line end or by each trivia form); rejected mutants must stay rejected; non-trivial = mutated source differs from the original, distinct by hash".into();
     c.assumptions = vec![
         "gaps containing a compiler directive and gaps inside directives are left alone".into(),
         "the blank terminating an escaped identifier is treated as part of that token".into(),
     ];
-    let seeds = Arc::new(corpus::load());
+    let mut seeds = corpus::load();
+    {
+        // the default sentence of every reference-grammar rule (ids from 100000)
+        let g = crate::engines::svgen::Gen::new(crate::engines::svgen::grammar_text());
+        for (k, (rule, items)) in g.rule_defaults().into_iter().enumerate() {
+            seeds.push(corpus::Seed { id: 100_000 + k, kind: format!("sv grammar:{}", rule), text: crate::engines::svgen::render(&items, " ", 0).text });
+        }
+    }
+    let seeds = Arc::new(seeds);
     let nf = FORMS.len();
     {
         let s = seeds.clone();
